@@ -838,6 +838,41 @@ const SPECS: &[Spec] = &[
                reply with that CA's identity key; the CMS logger (an audit directory on disk) only appears through its three \
                fallible calls.",
     },
+    Spec {
+        id: "C04",
+        file: "src/server/ca/keys.rs",
+        ty: "KeyState",
+        method: "knows_key",
+        lean: "KeyState.knows_key",
+        sig: "&self,key_id:KeyIdentifier->bool",
+        binders: "{K : Type} [DecidableEq K] (self_state : KeyState) (pending_key current_key new_key old_key key_id : K)",
+        args: "self_state pending_key current_key new_key old_key key_id",
+        ret: "Bool",
+        num: Num::Nat,
+        names: &[
+            ("self", "self_state"),
+            ("key_id", "key_id"),
+            ("pending.key_id", "pending_key"),
+            ("current.key_id", "current_key"),
+            ("new.key_id", "new_key"),
+            ("old.key.key_id", "old_key"),
+        ],
+        methods: &[],
+        state_ty: &[],
+        elem_ty: "",
+        enums: &[("KeyState", "src/server/ca/keys.rs", "")],
+        structs: &[],
+        types: &[],
+        opaque_lets: &[],
+        effects: &[],
+        wrapper: None,
+        cond_effects: &[],
+        tail: None,
+        note: "the key state enters as its variant (payloads dropped) and the identifiers of the keys its payload holds: \
+               `pending.key_id`, `current.key_id`, `new.key_id`, `old.key.key_id` are the parameters `pending_key` … \
+               `old_key` (the theorem instantiates them from the model's state; a parameter of a key the variant does not \
+               have is never consulted).",
+    },
 ];
 
 type R = Result<String, String>;
